@@ -30,9 +30,44 @@ def symrun(ex, scen):
     return [o1, o2], d1
 
 
+ORDER_DEP = ('g_scc', 'g_roundtrip', 'g_to_dot', 'g_to_dot_attr', 'g_iter', 'g_to_vec', 'g_roots', 'g_leaves', 'g_orphans')
+
+
+def canon_native(step, o):
+    """native runs of the two flavours cannot share the hash map's iteration order: compare order-free forms"""
+    import json
+    key = lambda x: json.dumps(x, sort_keys=True)
+    if abnormal_kind(o) or o is None:
+        return o
+    op = step[0]
+    if op == 'g_scc':
+        return sorted((sorted(c) for c in o), key=key)
+    if op in ('g_iter', 'g_to_vec', 'g_roots', 'g_leaves', 'g_orphans'):
+        return sorted(o, key=key)
+    if op in ('g_to_dot', 'g_to_dot_attr') and isinstance(o, str):
+        return sorted(o.split('\n'))
+    if op == 'g_roundtrip' and isinstance(o, dict) and isinstance(o.get('doc'), dict):
+        o = dict(o)
+        o['doc'] = {k: (sorted(v, key=key) if isinstance(v, list) else v) for k, v in o['doc'].items()}
+        return o
+    return o
+
+
+def canon_run(scen, obs):
+    return [canon_native(st, o) for st, o in zip(scen['steps'], obs)]
+
+
 def natrun(native, scen):
-    a, b = native.run([scen, with_flavour(scen, PAIRS[scen['flavour']])])
-    return [a, b]
+    other = with_flavour(scen, PAIRS[scen['flavour']])
+    dep = any(st[0] in ORDER_DEP for st in scen['steps'])
+    last = None
+    for _ in range(24 if dep else 1):
+        a, b = native.run([scen, other])
+        last = [canon_run(scen, a), canon_run(scen, b)] if dep else [a, b]
+        import json
+        if json.dumps(last[0], sort_keys=True) != json.dumps(last[1], sort_keys=True):
+            break
+    return last
 
 
 def evaluate(prop, scen, obs, ctx):
